@@ -322,6 +322,20 @@ def build_siblings(tier):
             items.append(mk(lab, mkg, ['x', cheat], 'cheat', UNDEF_ERR, tag='sibling'))
         for cheat in ('sibling_2', 'x+0*sibling_2', 'x+0*sibling_1', 'sibling_1'):
             items.append(mk(lab, mkg, [cheat, 'x^2'], 'cheat', UNDEF_ERR, tag='sibling'))
+
+        # the sibling is referenced only through a dependent sampling set (an instructor variable), not by the answer text
+        def mkg2(credit=credit):
+            return ListGrader(
+                answers=['2*a', {'expect': 'sq', 'grade_decimal': credit}],
+                subgraders=FormulaGrader(variables=['a', 'sq'], instructor_vars=['sq'],
+                                         sample_from={'sq': DependentSampler(formula='sibling_1^2')}),
+                ordered=True)
+        lab2 = 'ordered ListGrader, second answer = instructor variable sq = sibling_1^2 (dependent sampler), credit %r' % credit
+        items.append(mk(lab2, mkg2, ['2*a', '4*a^2'], 'control', credit=credit))
+        items.append(mk(lab2, mkg2, ['2*a', '(2*a)^2'], 'control', credit=credit))
+        for cheat in ('sibling_1^2', '4*a^2+sibling_1-sibling_1', '4*a^2*3^(sibling_1*0)', '4*a^2+0*sibling_1', 'sq', '4*a^2+0*sq',
+                      '4*a^2+sq-sq', '4*a^2+0*sibling_2'):
+            items.append(mk(lab2, mkg2, ['2*a', cheat], 'cheat', UNDEF_ERR, tag='sibling-via-sampler'))
     return items
 
 
